@@ -82,6 +82,8 @@ def general_oracle(framing, count, res, sent, reads):
             acc += later[j]
             if acc == raw:
                 ok = True
+            if acc == raw and j - i >= 2 and framing != 'tcp':
+                out.append(('checksummed:only-exact-remainder', f'{j - i + 1} datagrams combined into the result: the second one was not the exact remainder of the first'))
             if acc == raw and j > i and framing != 'tcp':
                 # built from several pieces on a checksummed framing: only an *exact* remainder may complete a
                 # fragment, i.e. the result is exactly as long as its header announces
@@ -136,6 +138,10 @@ def second_pieces(framing, count, F, p, G):
     yield ('other-block', G[p:])
     yield ('full-frame', F)
     yield ('garbage', bytes((i * 37 + 11) & 0xFF for i in range(len(rem))))
+    # the remainder itself arrives in two pieces (three datagrams in all): the second datagram is not the exact remainder
+    for k in sorted({1, len(rem) // 2, len(rem) - 1}):
+        if 0 < k < len(rem):
+            yield (f'rem-in-two@{k}', (rem[:k], rem[k:]))
 
 
 def run_case(case, ka, T=1.0):
@@ -166,6 +172,8 @@ def run_case(case, ka, T=1.0):
             if k:
                 return [(D0, ('data', frame(framing, count, req, fill=k)))]
             F = frame(framing, count, req)
+            if isinstance(piece, tuple):
+                return [(D0, ('data', F[:p])), (.3 * T, ('data', piece[0])), (.4 * T, ('data', piece[1]))]
             return [(D0, ('data', F[:p])), (.3 * T, ('data', piece))]
         res, sent, reads, unh = execute(framing, count, plan, ka, R=1)
         # checksummed framings: whatever is accepted must be a well-formed frame (CRC / sum verified by the
@@ -434,6 +442,12 @@ def replay(r):
         out = c06.replay(r)
         out['violations'] = [v for v in out['violations'] if v[0].startswith('answered-at-once:frag')]
         return out
-    case = [bytes.fromhex(c['hex']) if isinstance(c, dict) and 'hex' in c else c for c in r['case']]
+    def unhex(c):
+        if isinstance(c, dict) and 'hex' in c:
+            return bytes.fromhex(c['hex'])
+        if isinstance(c, list) and c and all(isinstance(x, dict) and 'hex' in x for x in c):
+            return tuple(bytes.fromhex(x['hex']) for x in c)      # (a remainder delivered in several datagrams)
+        return c
+    case = [unhex(c) for c in r['case']]
     v, o = run_case(tuple(case), r['ka'], T=r.get('T', 1.0))
     return dict(case=[c.hex() if isinstance(c, bytes) else c for c in case], outcome=o, violations=v)
